@@ -92,6 +92,40 @@ let show_res0 f = function
   | Err0 _ -> "Err"
   | Panic0 -> "Panic"
 
+
+(* ---- writer over a failing destination (kind wfs) *)
+let fault_kinds = [| "Interrupted"; "WriteZero"; "InvalidInput"; "Other"; "BrokenPipe"; "WouldBlock";
+                     "TimedOut"; "PermissionDenied" |]
+
+let parse_faults s =
+  if s = "_" then [] else
+  List.map (fun p ->
+    let t = String.sub p 1 (String.length p - 1) in
+    match p.[0] with
+    | 'F' -> Full
+    | 'S' -> Short (nat_of_int (int_of_string t))
+    | 'I' -> Interrupted
+    | 'E' -> Fail (n_of_int (int_of_string t))
+    | _ -> failwith "fault") (split_on ',' s)
+
+let parse_wops_t s =
+  if s = "_" then [] else
+  List.concat_map (fun p -> if p = "t" then [OTryFinish] else parse_wops p) (split_on ',' s)
+
+(* a frame the writer tried to emit whose compressed data never reached the destination (the
+   attempt failed inside the header) is not in the table: its size is unobservable *)
+let deflate_of_default table = fun lvl x -> try deflate_of table lvl x with Oracle_miss -> []
+
+let show_fres f = function
+  | FOk a -> f a
+  | FErr e -> "Err:" ^ (let i = int_of_n e in if i < Array.length fault_kinds then fault_kinds.(i) else string_of_int i)
+  | FPanic -> "Panic"
+
+let show_res0v = function
+  | Ok0 v -> show_vp v
+  | Err0 _ -> "Err"
+  | Panic0 -> "Panic"
+
 let handle kind a =
   match kind with
   | "hist" | "hidx" ->
@@ -116,6 +150,20 @@ let handle kind a =
         Some (String.concat " " (List.map (fun ((t, sk), rd) ->
           show_res0 show_vp t ^ "=" ^ show_res show_vp sk ^ ">" ^ show_res canon_bytes rd) rows))
       with Oracle_miss -> Some "deflate-oracle-miss")
+  | "wfs" ->
+      let lvl = n_of_dec a.(0) and fin = (a.(1) = "finish") and ops = parse_wops_t a.(2)
+      and n = n_of_dec a.(3) and script = parse_faults a.(4) and table = parse_sizes a.(5) in
+      let ((((obs, rf), pos), len), rows) =
+        fwtell_run (deflate_of_default table) pinned_writer_repaired lvl script ops fin n in
+      let calls = List.map (fun ((r, t), l) ->
+        show_fres (function Some amt -> "Ok:" ^ dec_of_n amt | None -> "Ok") r
+        ^ "@" ^ show_res0v t ^ "#" ^ dec_of_n l) obs in
+      let ending = Printf.sprintf "|%s %s %s|" (show_fres (fun _ -> "Ok") rf) (dec_of_n pos) (dec_of_n len) in
+      let rows = match rows with
+        | None -> ["-"]
+        | Some rs -> List.map (fun ((t, sk), rd) ->
+            show_res0v t ^ "=" ^ show_res show_vp sk ^ ">" ^ show_res canon_bytes rd) rs in
+      Some (String.concat " " (calls @ [ending] @ rows))
   | "vp" ->
       let c1 = n_of_dec a.(0) and u1 = n_of_dec a.(1) and c2 = n_of_dec a.(2) and u2 = n_of_dec a.(3) in
       let pa = vpos_try_from c1 u1 and pb = vpos_try_from c2 u2 in
@@ -137,6 +185,23 @@ let handle kind a =
       let fb = bytes_of_hex a.(0) in
       let ns = if a.(1) = "_" then [] else List.map n_of_dec (split_on ',' a.(1)) in
       Some (match hread_run fb ns with
+            | [] -> "_"
+            | rows -> String.concat " " (List.map (fun (r, t) ->
+                show_res dec_of_n r ^ "@" ^ show_res show_vp t) rows))
+  | "hrs" ->
+      let fb = bytes_of_hex a.(0) in
+      let ops = if a.(1) = "_" then [] else List.map (fun p ->
+        let t = String.sub p 1 (String.length p - 1) in
+        match p.[0] with
+        | 'r' -> `R (BRead (n_of_dec t))
+        | _ -> (match split_on ':' t with
+                | [c; u] ->
+                    (* VirtualPosition::try_from((c, u)) in the harness: c must fit 48 bits *)
+                    (match vpos_try_from (n_of_dec c) (n_of_dec u) with
+                     | Some v -> `R (BSeek v) | None -> `Invalid)
+                | _ -> failwith "hrs seek")) (split_on ',' a.(1)) in
+      if List.exists (fun o -> o = `Invalid) ops then None else
+      Some (match hrs_run fb (List.map (function `R o -> o | `Invalid -> assert false) ops) with
             | [] -> "_"
             | rows -> String.concat " " (List.map (fun (r, t) ->
                 show_res dec_of_n r ^ "@" ^ show_res show_vp t) rows))
